@@ -45,10 +45,14 @@ CLAIMED = {
                 text="Seeded search: BAM files produced by an independent struct-level encoder (0..6 references, names up to 254 chars, all nine CIGAR ops, odd/even/zero l_seq over the 16-letter code, qualities incl. the 0xFF convention, all tag types, unmapped and placed-unmapped records) with BGZF blocks cut at drawn offsets (inside records and header) on simulated storage; decoded whole and under a chunk-size sweep (k >= largest record), lazy and eager; interval/strand derivation; write-back (whole / mask / permutation / stream, lazy and eager source) decoded again by the independent decoder; one-shot EIO in 1/8 of runs.",
                 note="Trusts bnpsim/models/bam.py (validated against the repo's example .bam/.sam twins: byte-exact re-encoding). Chunk sizes below the largest record are probed, not judged.",
                 tech=TECH + "BGZF member-layout x chunk-size schedule over SimFS + EIO fault; independent spec-level encoder/decoder as oracle"),
+    "C05": dict(engine="lazysim", cat="exploration", ref="§4 C05",
+                text="Seeded search: the same operation history (len, field access, slice/mask/integer-list/single index, concatenate, replace, tolist, write; <= 12 ops, whole or chunked origin) is run in lock-step on the lazily and the eagerly read twin of a canonical generated file; every step must give equal values / equal written bytes or fail in both, and every variable is observed (len, all fields, written bytes) in both worlds at the end.",
+                note="Canonical sources only (LF, repr floats, no '.' placeholders, no extra columns) so that C04's intended lazy/eager difference cannot appear; exceptions compare as raised / not raised.",
+                tech=TECH + "lock-step twin execution of operation histories on lazy vs eager tables (step-wise equality oracle)"),
 }
 
 _P = "check designed in DESIGN.md (simulated) but not built yet at this commit; not claimed until its check exists"
-PENDING = {k: _P for k in ["C05", "C20"]}
+PENDING = {k: _P for k in ["C20"]}
 
 NOT_APPLICABLE = {
     "C06": "pure function of (byte, alphabet): no storage, stream, history or shared state, so no scheduler or fault decision can change the outcome (DESIGN §4 C06)",
